@@ -128,6 +128,15 @@ def strip_comments(text):
 
 ALLOWED_AXIOMS = set()   # target: none
 
+TRUSTED_BASE = [
+    "Coq 8.16.1 kernel (coqc); vm_compute for case evaluation; no native_compute",
+    "axioms: none (every property theorem prints 'Closed under the global context')",
+    "hand-written Gallina model of /repo's syscall sequencing (coq/theories/*.v): modelled, not verified; tied to the code by T1 trace replay on every run",
+    "tools/extract_facts.py (regex translator, T0) regenerating coq/gen/Consts.v from /repo",
+    "seccomp user-notification supervisor in harness/driver (executes the worker's calls on its behalf)",
+    "Python glue: tools/vlib.py, tools/model.py, tools/gen.py, tools/props/*.py",
+]
+
 
 def check_props(prop_id):
     """Recompile props/<id>.v, collect Print Assumptions output and pinned theorems.
@@ -478,10 +487,73 @@ def write_evidence(prop, tier, seed, coverage, wall_s, violations, assumptions, 
         json.dump(ev, f, indent=1, default=str)
 
 
+import fcntl
+
+
+class BuildLock:
+    def __enter__(self):
+        os.makedirs(CACHE, exist_ok=True)
+        self.f = open(os.path.join(CACHE, "lock"), "w")
+        fcntl.flock(self.f, fcntl.LOCK_EX)
+        return self
+
+    def __exit__(self, *a):
+        fcntl.flock(self.f, fcntl.LOCK_UN)
+        self.f.close()
+
+
+def prepare(ck, need_driver=True):
+    """T0 + Coq build + props/<id>.v + driver build.  Failures are recorded on
+    the check (proof_broken / build_broken), not raised."""
+    with BuildLock():
+        t = time.time()
+        ok, msg = t0_extract()
+        ck.notes.append(msg)
+        if not ok:
+            ck.proof_broken.append("T0 extraction: " + msg)
+        bad = forbidden_scan()
+        if bad:
+            ck.proof_broken.append("forbidden vernacular: " + ", ".join(bad[:5]))
+        okc, out = coq_make([])
+        if not okc:
+            ck.proof_broken.append("coq build: " + tail_err(out))
+        res = check_props(ck.prop) if os.path.exists(os.path.join(COQ, "props", ck.prop + ".v")) else None
+        if res is None:
+            ck.proof_broken.append("no props file")
+        else:
+            ck.theorems = res["theorems"]
+            ck.discharged = len(res["theorems"]) if res["ok"] else 0
+            if not res["ok"]:
+                ck.proof_broken.append("props/%s.v: %s" % (ck.prop, tail_err(res["log"])))
+            ck.axioms = res.get("axioms", [])
+        ck.coq_s = time.time() - t
+        if need_driver:
+            t = time.time()
+            okd, lg = build_driver()
+            ck.build_s = time.time() - t
+            if not okd:
+                ck.build_broken = lg
+
+
+def tail_err(out):
+    lines = out.splitlines()
+    for i, l in enumerate(lines):
+        if l.startswith("File ") or "Error" in l:
+            return " | ".join(lines[i:i + 6])[:800]
+    return out[-400:]
+
+
 class Check:
     """Book-keeping shared by all property checks."""
 
     def __init__(self, prop, tier, seed):
+        self.proof_broken = []
+        self.build_broken = None
+        self.theorems = []
+        self.discharged = 0
+        self.axioms = []
+        self.coq_s = 0.0
+        self.build_s = 0.0
         self.prop = prop
         self.tier = tier
         self.seed = seed
@@ -491,6 +563,15 @@ class Check:
         self.notes = []
         self.rng = random.Random(seed)
         self.known = [f for f in load_known().get("findings", []) if f["property"] == prop]
+        # stale replay files of this property are removed: the run rewrites what it reports
+        rd = os.path.join(VERIF, "evidence", "replay")
+        if os.path.isdir(rd):
+            for fn in os.listdir(rd):
+                if fn.startswith(prop + "-"):
+                    try:
+                        os.remove(os.path.join(rd, fn))
+                    except OSError:
+                        pass
 
     def violation(self, what, payload, found_input=True):
         self.violations.append((what, payload, found_input))
@@ -503,6 +584,22 @@ class Check:
         wall = time.time() - self.t0
         for fid, what in self.known_hits:
             print(f"KNOWN-FINDING: property={self.prop} {fid}: {what}")
+        found_inputs = [v for v in self.violations if v[2]]
+        if self.build_broken and not found_inputs:
+            self.violations.append(("harness does not build against /repo", {"log": self.build_broken}, False))
+        if self.proof_broken and not found_inputs:
+            # the proof obligations / T0 tie no longer check and the search found no failing input
+            self.violations.append(("proof obligation or T0 tie broken: " + "; ".join(self.proof_broken)[:1500],
+                                    {"theorems": self.theorems, "broken": self.proof_broken}, False))
+        coverage = dict(coverage)
+        coverage.setdefault("obligations", max(1, len(self.theorems)))
+        coverage.setdefault("discharged", self.discharged if not self.proof_broken else 0)
+        coverage.setdefault("theorems", self.theorems)
+        coverage.setdefault("axioms_reported", self.axioms)
+        coverage.setdefault("checker_cmd", "cd /verif/coq && make -j16 && coqc props/%s.v (Print Assumptions parsed; forbidden-vernacular scan)" % self.prop)
+        coverage.setdefault("trusted_base", TRUSTED_BASE)
+        coverage.setdefault("proof_broken", self.proof_broken)
+        coverage.setdefault("timing", {"coq_s": round(self.coq_s, 1), "cargo_s": round(self.build_s, 1)})
         n = 0
         for what, payload, found in self.violations:
             n += 1
